@@ -351,6 +351,12 @@ class Exec:
         if m:
             key = "%s.%s" % (m.group(1), m.group(2))
             return env[key], m.group(3)
+        m = re.match(r"^(?:copy|move) \(\((_\d+) as (\w+)\)\.(\d): (\w+)\)$", s)
+        if m:
+            key = "%s.%s.%s" % (m.group(1), m.group(2), m.group(3))
+            if key not in env:
+                raise Untranslatable("%s: read of enum payload `%s`" % (self.fn.name, s))
+            return env[key], m.group(4)
         m = re.match(r"^const (-?\d+)_(\w+)$", s)
         if m:
             ty = m.group(2)
@@ -432,6 +438,9 @@ class Exec:
             if w < wa:
                 return mk("trunc", w, a)
             return mk("sext" if is_signed(aty) else "zext", w, a)
+        m = re.match(r"^discriminant\((_\d+)\)$", rhs)
+        if m and m.group(1) + ".disc" in env:
+            return env[m.group(1) + ".disc"]
         if rhs.startswith(("copy ", "move ", "const ")):
             return self.operand(rhs, env)[0]
         raise Untranslatable("%s: rvalue `%s`" % (fn.name, rhs))
@@ -509,6 +518,20 @@ class Exec:
                     res = mk("ite", width(a), lt, a, b) if callee == "min" else mk("ite", width(a), lt, b, a)
                     self.assign(m.group(1), res, env)
                     return self.exec_block(m.group(4), env, pc, depth + 1)
+                mt = re.match(r"^<(\w+) as TryFrom<(\w+)>>::try_from$", m.group(2).strip())
+                if mt and len(args) == 1 and mt.group(1) in WIDTH and mt.group(2) in WIDTH and not is_signed(mt.group(1)) and not is_signed(mt.group(2)):
+                    # Result<D, TryFromIntError> of an unsigned narrowing: discriminant 0 = Ok, 1 = Err (as printed by rustc)
+                    a, aty = args[0]
+                    wd, ws = WIDTH[mt.group(1)], width(a)
+                    if wd < ws:
+                        err = mk("ugt", 1, a, const((1 << wd) - 1, ws))
+                        pay = mk("trunc", wd, a)
+                    else:
+                        err = const(0, 1)
+                        pay = a if wd == ws else mk("zext", wd, a)
+                    env[m.group(1) + ".disc"] = mk("ite", 64, err, const(1, 64), const(0, 64))
+                    env[m.group(1) + ".Ok.0"] = pay
+                    return self.exec_block(m.group(4), env, pc, depth + 1)
                 if callee in ("wrapping_neg",) and len(args) == 1:
                     self.assign(m.group(1), mk("neg", width(args[0][0]), args[0][0]), env)
                     return self.exec_block(m.group(4), env, pc, depth + 1)
@@ -566,6 +589,19 @@ class Exec:
                 taken = []
                 for t in reversed(targets):
                     k, tb = [x.strip() for x in t.split(":")]
+                    if fn.blocks.get(tb) == ["unreachable;"]:
+                        # rustc proved the arm dead (enum discriminant out of range); keep that as an obligation
+                        if k == "otherwise":
+                            none = const(1, 1)
+                            for t2 in targets:
+                                k2 = t2.split(":")[0].strip()
+                                if k2 != "otherwise":
+                                    none = mk("and", 1, none, mk("ne", 1, c, const(int(k2), width(c))))
+                            dead = mk("not", 1, none)
+                        else:
+                            dead = mk("ne", 1, c, const(int(k), width(c)))
+                        self.obligations.append(("%s: switch arm %s marked unreachable" % (fn.name, k), pc, dead))
+                        continue
                     if k == "otherwise":
                         cond = None
                     else:
